@@ -134,3 +134,67 @@ func levelPairs(r *common.Run) {
 	r.Add("transitions", int(done))
 	r.Add("traces_validated_against_impl", int(done))
 }
+
+// Batch sizes: one AddTriples / RemoveTriples call with n distinct triples for n = 2^k and 2^k +- 1 up to the bound
+// (sizes far beyond the two-element batches of level 1): the graph holds exactly the n triples afterwards, a second
+// identical add changes nothing, and one remove of the whole batch empties it.
+type batchCase struct {
+	N int `json:"batch_size"`
+}
+
+func checkBatch(c batchCase) (bool, string, string) {
+	ts := make([]*triple.Triple, 0, c.N)
+	s, p := model.N("/u", "s"), model.PI("p")
+	for i := 0; i < c.N; i++ {
+		ts = append(ts, model.T(s, p, model.ON(model.N("/u", fmt.Sprintf("o%d", i)))))
+	}
+	st := memory.NewStore()
+	g, _ := st.NewGraph(model.Ctx, "?g")
+	count := func() int { l, _ := model.ListTriples(g, storage.DefaultLookup); return len(l) }
+	missing := func() int {
+		n := 0
+		for _, t := range ts {
+			if ok, _ := g.Exist(model.Ctx, t); !ok {
+				n++
+			}
+		}
+		return n
+	}
+	for round := 0; round < 2; round++ {
+		if err := g.AddTriples(model.Ctx, ts); err != nil {
+			return false, "operation-error", err.Error()
+		}
+		if n, m := count(), missing(); n != c.N || m != 0 {
+			return false, "batch-not-stored", fmt.Sprintf("AddTriples with %d distinct triples (call %d): %d listed, Exist false for %d of them", c.N, round+1, n, m)
+		}
+	}
+	if err := g.RemoveTriples(model.Ctx, ts); err != nil {
+		return false, "operation-error", err.Error()
+	}
+	if n, m := count(), missing(); n != 0 || m != c.N {
+		return false, "batch-not-removed", fmt.Sprintf("RemoveTriples with the %d stored triples: %d still listed, Exist still true for %d", c.N, n, c.N-m)
+	}
+	return true, "", ""
+}
+
+func levelBatches(r *common.Run) {
+	max := r.Pick(4096, 65536)
+	var sizes []int
+	for n := 1; n <= max; n *= 2 {
+		for _, d := range []int{-1, 0, 1} {
+			if n+d >= 0 {
+				sizes = append(sizes, n+d)
+			}
+		}
+	}
+	common.ParallelFor(len(sizes), func(i int) {
+		c := batchCase{sizes[i]}
+		if ok, shape, d := checkBatch(c); !ok {
+			r.Fail(common.Failure{Check: "batch", Class: "batch-size", Shape: shape, Case: c, Detail: d})
+		}
+	})
+	r.Set("l0_batch_sizes", len(sizes))
+	r.Set("l0_batch_max", max)
+	r.Add("transitions", len(sizes))
+	r.Add("traces_validated_against_impl", len(sizes))
+}
